@@ -46,6 +46,10 @@ double alpha_z_ = -1;
 ///
 double truncate3(double n)
 {
+  // n * 1000 must fit into int64_t, the cast below would
+  // otherwise be undefined behavior. The alpha tuning
+  // factors are <= x^(1/6) < 2^22 anyway.
+  n = std::min(n, 1e15);
   return (int64_t)(n * 1000) / 1000.0;
 }
 
@@ -173,8 +177,8 @@ double get_time()
 void set_alpha(double alpha)
 {
   // If alpha < 1 then we compute a good
-  // alpha tuning factor at runtime.
-  if (alpha < 1.0)
+  // alpha tuning factor at runtime (also if NaN).
+  if (!(alpha >= 1.0))
     alpha_ = -1;
   else
     alpha_ = truncate3(alpha);
@@ -183,8 +187,8 @@ void set_alpha(double alpha)
 void set_alpha_y(double alpha_y)
 {
   // If alpha_y < 1 then we compute a good
-  // alpha tuning factor at runtime.
-  if (alpha_y < 1.0)
+  // alpha tuning factor at runtime (also if NaN).
+  if (!(alpha_y >= 1.0))
     alpha_y_ = -1;
   else
     alpha_y_ = truncate3(alpha_y);
@@ -193,8 +197,8 @@ void set_alpha_y(double alpha_y)
 void set_alpha_z(double alpha_z)
 {
   // If alpha_z < 1 then we compute a good
-  // alpha tuning factor at runtime.
-  if (alpha_z < 1.0)
+  // alpha tuning factor at runtime (also if NaN).
+  if (!(alpha_z >= 1.0))
     alpha_z_ = -1;
   else
     alpha_z_ = truncate3(alpha_z);
